@@ -12,6 +12,8 @@ package props
 //                d=<exons>            r, err := s.Add(exons...); result dropped
 //                t=<j>                s = s[:min(j,cap(s))]
 //                o=<j>                s = s[min(j,len(s)):]
+//                h=-                  held = s   (a second variable; with a later t=0 this is the reset
+//                                     idiom: an empty receiver whose spare capacity is held's live data)
 //   tx <c|n> <off>,<ori>,<cdsS>,<cdsE> <locchain> <op>*
 //                                     history on a (coding | non-coding) transcript t whose
 //                                     Loc is the first node of <locchain>
@@ -20,6 +22,9 @@ package props
 //        op    = S=<exons>            err := t.SetExons(exons...)    (loc 1 = t, 2 and 3 = other transcripts, 0 = nil)
 //                A=<exons>            _, err := t.Exons().Add(exons...)
 //                R=<exons>            r, err := t.Exons().Add(exons...); if err == nil { err = t.SetExons(r...) }
+//                Z<j>=<exons>         ex := t.Exons(); _, err := ex[:min(j,cap(ex))].Add(exons...)   (Z = Z0: the
+//                                     reset idiom t.Exons()[:0].Add(…), an empty receiver whose spare
+//                                     capacity is the transcript's live exon array)
 //   ch <nodes> <loop> <query>*        a feature chain, bottom-up; kinds o x G C and
 //                                     E (gene.Exon) I (gene.Intron) F (*gene.TranscriptFeature)
 //                                     T (*gene.CodingTranscript) N (*gene.NonCodingTranscript);
@@ -34,6 +39,7 @@ import (
 	"go/ast"
 	"go/parser"
 	"go/token"
+	"math"
 	"path/filepath"
 	"runtime"
 	"sort"
@@ -215,6 +221,7 @@ func c20ExecXS(f []string) string {
 	}
 	s := make(gene.Exons, n, c)
 	copy(s, init)
+	var held gene.Exons
 	var obs []string
 	for _, op := range f[4:] {
 		kind, arg := op[:1], op[2:]
@@ -222,13 +229,17 @@ func c20ExecXS(f []string) string {
 		case "a", "d":
 			args := c20Real(c20ParseExons(arg), pool)
 			before := c20Snap(s[:cap(s)], pool)
+			heldBefore := c20Snap(held, pool)
 			r, err := s.Add(args...)
 			after := c20Snap(s[:cap(s)], pool)
-			obs = append(obs, fmt.Sprintf("%s %d %s %s %s %d %s %s", c20Err(err), len(s), before, after,
-				c20Snap(r, pool), cap(r), c20Snap(args, pool), hx.B(c20SameArray(r, s))))
+			obs = append(obs, fmt.Sprintf("%s %d %s %s %s %d %s %s %s %s", c20Err(err), len(s), before, after,
+				c20Snap(r, pool), cap(r), c20Snap(args, pool), hx.B(c20SameArray(r, s)), heldBefore, c20Snap(held, pool)))
 			if kind == "a" {
 				s = r
 			}
+		case "h":
+			held = s
+			obs = append(obs, fmt.Sprintf("h %d", len(held)))
 		case "t":
 			j := hx.Atoi(arg)
 			if j > cap(s) {
@@ -452,10 +463,27 @@ func c20ExecTX(f []string) string {
 	pool := []gene.Transcript{nil, t, u, v}
 	var obs []string
 	for _, op := range f[4:] {
-		kind, arg := op[:1], op[2:]
+		eq := strings.IndexByte(op, '=')
+		if eq < 1 {
+			panic("c20: bad tx op " + op)
+		}
+		kind, arg := op[:1], op[eq+1:]
+		if kind != "Z" && eq != 1 {
+			panic("c20: bad tx op " + op)
+		}
 		args := c20Real(c20ParseExons(arg), pool)
 		var err error
 		switch kind {
+		case "Z":
+			j := 0
+			if eq > 1 {
+				j = hx.Atoi(op[1:eq])
+			}
+			ex := t.Exons()
+			if j > cap(ex) {
+				j = cap(ex)
+			}
+			_, err = ex[:j].Add(args...)
 		case "S":
 			err = t.SetExons(args...)
 		case "A":
@@ -636,6 +664,35 @@ func c20NewExons(g *hx.Gen, tg *c20Tags, cur []c20Exon, loc int) []c20Exon {
 	return out
 }
 
+// c20FreshArgs proposes arguments for an Add on an empty receiver (nothing to be consistent
+// with): a layout of m exons that is accepted, or rejected because two of them overlap or lie on
+// different locations. Equal starts are produced only for at most 12 exons.
+func c20FreshArgs(g *hx.Gen, tg *c20Tags, loc, m int) []c20Exon {
+	if m < 1 {
+		m = 1
+	}
+	es, _ := c20Layout(g, tg, g.Pick(loc, loc, loc, loc, 2, 0), m, g.Pick(0, 0, 0, 3, 4))
+	if m >= 2 {
+		switch g.Intn(6) {
+		case 0, 1, 2: // two exons overlap
+			j := 1 + g.Intn(m-1)
+			if m <= 12 && g.Chance(0.2) {
+				es[j].start = es[j-1].start
+			} else {
+				es[j-1].length++
+				es[j].start = es[j-1].start + es[j-1].length - 1
+			}
+		case 3: // one exon on another location
+			j := g.Intn(m)
+			es[j].loc = (es[j].loc + g.Pick(1, 2)) % 4
+		}
+	}
+	if g.Chance(0.5) {
+		c20Shuffle(g, es)
+	}
+	return es
+}
+
 // c20DupStart reports whether two exons of the list have the same start.
 func c20DupStart(es []c20Exon) bool {
 	seen := map[int]bool{}
@@ -692,9 +749,24 @@ func c20GenXS(g *hx.Gen) string {
 			toks = append(toks, fmt.Sprintf("o=%d", j))
 			cells = cells[j:]
 			length -= j
+		case r == 2 && length > 0:
+			// held = s, then (mostly) the reset idiom s = s[:0]: the receiver of the following Adds
+			// is empty and its spare capacity is what held reads
+			toks = append(toks, "h=-")
+			if g.Chance(0.8) {
+				j := 0
+				if g.Chance(0.25) {
+					j = g.Intn(length)
+				}
+				toks = append(toks, fmt.Sprintf("t=%d", j))
+				length = j
+			}
 		default:
 			cur := cells[:length]
 			add := c20NewExons(g, tg, cur, loc)
+			if len(cur) == 0 && len(cells) > 0 && g.Chance(0.7) {
+				add = c20FreshArgs(g, tg, loc, g.Pick(1, 1, 2, 3, len(cells), len(cells)+1))
+			}
 			if len(cur)+len(add) > 12 && c20DupStart(cur) {
 				// sort.Sort is not stable beyond 12 elements: the outcome could depend on
 				// the order it leaves equal starts in
@@ -868,6 +940,37 @@ func c20GenTX(g *hx.Gen) string {
 	toks := []string{"tx", kind, hdr, c20GenLocChain(g)}
 	cur := []c20Exon{}
 	emit := func(op string, es []c20Exon) { toks = append(toks, op+"="+c20ShowExons(es)) }
+	// Add on a re-slice of t.Exons(), result dropped: t.Exons()[:0] (the reset idiom) mostly, with
+	// argument lists that are accepted and rejected, that fit the capacity and exceed it
+	emitZ := func() {
+		sorted := append([]c20Exon{}, cur...)
+		sort.SliceStable(sorted, func(i, j int) bool { return sorted[i].start < sorted[j].start })
+		j := 0
+		if g.Chance(0.35) {
+			j = g.Intn(len(sorted) + 2)
+		}
+		var add []c20Exon
+		if j == 0 || len(sorted) == 0 {
+			add = c20FreshArgs(g, tg, 1, g.Pick(1, 1, 2, 3, len(sorted), len(sorted), len(sorted)+1, len(sorted)+2))
+		} else {
+			k := j
+			if k > len(sorted) {
+				k = len(sorted)
+			}
+			add = c20NewExons(g, tg, sorted[:k], 1)
+			if k+len(add) > 12 && c20DupStart(sorted[:k]) {
+				return
+			}
+		}
+		if j == 0 {
+			emit("Z", add)
+		} else {
+			emit(fmt.Sprintf("Z%d", j), add)
+		}
+	}
+	if g.Chance(0.1) { // before any SetExons: t.Exons() is nil
+		emitZ()
+	}
 	if g.Chance(0.92) {
 		es := append([]c20Exon{}, first...)
 		if g.Chance(0.5) {
@@ -876,9 +979,17 @@ func c20GenTX(g *hx.Gen) string {
 		emit("S", es)
 		cur = first
 	}
+	if g.Chance(0.3) {
+		emitZ()
+	}
 	nops := g.Pick(0, 1, 1, 2, 3, 5)
 	for i := 0; i < nops; i++ {
-		switch g.Intn(8) {
+		switch g.Intn(11) {
+		case 8, 9, 10:
+			emitZ()
+			if g.Chance(0.3) {
+				emitZ()
+			}
 		case 0: // a fresh valid layout
 			es, _ := c20Layout(g, tg, 1, g.Pick(1, 2, 3, 6, 12, 16), 0)
 			if g.Chance(0.5) {
@@ -963,6 +1074,11 @@ func c20Gen(g *hx.Gen) {
 	for _, p := range []int{1 << 31, -(1 << 31), 1<<62 - 1, -(1 << 62)} {
 		g.Casef("cv %d", p)
 	}
+	// the ends of int: ZeroToOne(MaxInt64) wraps around to MinInt64
+	for d := 0; d <= 3; d++ {
+		g.Casef("cv %d", math.MaxInt64-d)
+		g.Casef("cv %d", math.MinInt64+d)
+	}
 	n := g.Scale(40000, 1000000)
 	deepEvery := g.Scale(150, 400)
 	for k := 0; k < n && !g.Done(); k++ {
@@ -980,12 +1096,19 @@ func c20Gen(g *hx.Gen) {
 		case r < 19:
 			g.Case(c20GenGF(g))
 		default:
-			g.Casef("cv %d", g.Range(-1000000, 1000000))
+			switch g.Intn(4) {
+			case 0:
+				g.Casef("cv %d", math.MaxInt64-g.Intn(1000))
+			case 1:
+				g.Casef("cv %d", math.MinInt64+g.Intn(1000))
+			default:
+				g.Casef("cv %d", g.Range(-1000000, 1000000))
+			}
 		}
 	}
 }
 
-// c20Shrink drops one trailing operation / query, or one element of an exon list.
+// c20Shrink drops one operation / query, or one element of an exon list.
 func c20Shrink(input string) []string {
 	f := hx.Fields(input)
 	var hdr int
@@ -1015,8 +1138,21 @@ func c20Shrink(input string) []string {
 		if len(items) < 2 {
 			continue
 		}
+		// an exon list that is inconsistent in itself (two of its exons overlap or lie on different
+		// locations) is rejected whatever the receiver holds; do not shrink it into a consistent one,
+		// which would turn a failing rejected call into a different, accepted one
+		selfRejected := false
+		if f[0] == "xs" || f[0] == "tx" {
+			_, ok := c20Accepts(nil, c20ParseExons(strings.Join(items, ";")))
+			selfRejected = !ok
+		}
 		for j := range items {
 			rest := append(append([]string{}, items[:j]...), items[j+1:]...)
+			if selfRejected {
+				if _, ok := c20Accepts(nil, c20ParseExons(strings.Join(rest, ";"))); ok {
+					continue
+				}
+			}
 			g := append([]string{}, f...)
 			g[i] = f[i][:eq+1] + strings.Join(rest, ";")
 			out = append(out, strings.Join(g, " "))
